@@ -20,15 +20,18 @@ let variant = function
   | InvalidRequest -> "InvalidRequest" | MissingMethod -> "MissingMethod" | MissingStatus -> "MissingStatus"
   | MissingAuthority -> "MissingAuthority" | ContradictedAuthority -> "ContradictedAuthority"
   | TooManyFields -> "TooManyFields"
-let refusal r =
-  Printf.sprintf "err %s code=%s reset=%s stop=%s" (variant r.r_why) (string_of_n r.r_code) (optn r.r_reset) (optn r.r_stop_sending)
+(* pure families (hdr) show the HeaderError variant; end-to-end families (e2e) show what the application and the
+   wire see: the StreamError code and the RESET_STREAM / STOP_SENDING codes *)
+let refusal e2e r =
+  if e2e then Printf.sprintf "err code=%s reset=%s stop=%s" (string_of_n r.r_code) (optn r.r_reset) (optn r.r_stop_sending)
+  else "err " ^ variant r.r_why
 let no_grow = fun _ -> false
 let proto_str = function
   | None -> "-"
   | Some k -> (match protocol_as_str k with Ok s -> opt (Some s) | _ -> "panic")
 let summarize big h =
   if big then Printf.sprintf "h#=%d" (List.length h) else "h=" ^ show_fields h
-let recv kind big fs =
+let recv ?(e2e=false) kind big fs =
   let m = (match kind with
     | "req" -> (match resolve_request no_grow fs with
         | Delivered r ->
@@ -36,15 +39,15 @@ let recv kind big fs =
               (opt (uri_scheme_str r.rq_uri)) (opt (uri_authority r.rq_uri))
               (opt (match uri_path_and_query r.rq_uri with Some q -> Some (pq_as_str q) | None -> None))
               (proto_str r.rq_protocol) (summarize big (hm_iter r.rq_headers))
-        | Refused r -> refusal r
+        | Refused r -> refusal e2e r
         | Panicked s -> "panic " ^ string_of_n s)
     | "resp" -> (match recv_response no_grow fs with
         | Delivered r -> Printf.sprintf "ok st=%s %s" (string_of_n r.rs_status) (summarize big (hm_iter r.rs_headers))
-        | Refused r -> refusal r
+        | Refused r -> refusal e2e r
         | Panicked s -> "panic " ^ string_of_n s)
     | _ -> (match recv_trailers no_grow fs with
         | Delivered h -> "ok " ^ summarize big (hm_iter h)
-        | Refused r -> refusal r
+        | Refused r -> refusal e2e r
         | Panicked s -> "panic " ^ string_of_n s)) in
   let wf = (match kind with
     | "req" -> wf_requestb http_parseable fs
@@ -96,6 +99,28 @@ let handle ws = match ws with
       let one = List.hd (parse_fields field) in
       let fs = parse_fields prefix @ List.init n (fun _ -> one) in
       recv kind (n > 64) fs
+  | ["e2e.req"; f] -> recv ~e2e:true "req" false (parse_fields f)
+  | ["e2e.resp"; f] -> recv ~e2e:true "resp" false (parse_fields f)
+  | ["e2e.trl"; _; f] -> recv ~e2e:true "trl" false (parse_fields f)
+  | ["e2e.many"; kind; count; field; prefix] ->
+      let n = int_of_string count in
+      let one = List.hd (parse_fields field) in
+      let fs = parse_fields prefix @ List.init n (fun _ -> one) in
+      let k = (match kind with "req" -> "req" | "resp" -> "resp" | _ -> "trl") in
+      recv ~e2e:true k (n > 64) fs
+  | ["wire.req"; m; s; a; p; x; h] ->
+      let r = send_req (arg m "m=") (arg s "s=") (arg a "a=") (arg p "p=") (arg x "x=") (arg h "h=") in
+      (if String.length r >= 3 && String.sub r 0 3 = "err" then "err" else r) ^ " | send"
+  | ["wire.resp"; st; h] ->
+      let st = int_of_string (arg st "st=") in
+      (if st < 100 || st > 999 then "badinput status" else
+       match build_map (parse_fields (arg h "h=")) with
+       | None -> "badinput fields"
+       | Some map -> emitted (send_response (n_of_int st) map)) ^ " | send"
+  | ["wire.trl"; _; h] ->
+      (match build_map (parse_fields (arg h "h=")) with
+       | None -> "badinput fields"
+       | Some map -> emitted (send_trailers map)) ^ " | send"
   | ["send.req"; m; s; a; p; x; h] ->
       send_req (arg m "m=") (arg s "s=") (arg a "a=") (arg p "p=") (arg x "x=") (arg h "h=") ^ " | send"
   | ["send.resp"; st; h] ->
